@@ -233,6 +233,8 @@ type reuseCall struct {
 }
 
 type parStep struct {
+	// All: Client.SendToAll over the roster of all nodes (uses Msg)
+	All  bool      `json:"all,omitempty"`
 	Send []parCall `json:"send,omitempty"`
 	// SendProtobuf calls one after the other that reuse ONE reply variable
 	Reuse []reuseCall `json:"reuse,omitempty"`
@@ -263,7 +265,11 @@ type retObs struct {
 }
 
 type stepOut struct {
-	Send []obsReply `json:"send,omitempty"`
+	// SendToAll: the returned slice slot by slot (nil = empty slot) and whether an error came back
+	IsAll  bool        `json:"isall,omitempty"`
+	All    []*obsReply `json:"allslots,omitempty"`
+	AllErr bool        `json:"allerr,omitempty"`
+	Send   []obsReply  `json:"send,omitempty"`
 	// per call of a reuse step: the error, or what the shared reply variable holds afterwards
 	Reuse []obsReply `json:"reuse,omitempty"`
 	// parallel call
@@ -402,6 +408,40 @@ func runPar(in *input, emit func(interface{}), started *bool) (discard bool, hun
 
 	*started = true
 	for _, st := range p.Steps {
+		if st.All {
+			so := stepOut{IsAll: true}
+			fin := make(chan struct{})
+			go func() {
+				defer close(fin)
+				defer func() {
+					if r := recover(); r != nil {
+						so.Raw = "client panic: " + short(fmt.Sprint(r))
+					}
+				}()
+				buf, err := protobuf.Encode(msgQ(&st.Msg))
+				if err != nil {
+					panic(err)
+				}
+				msgs, err := cl.SendToAll(onet.NewRoster(sis), "MsgQ", buf)
+				so.AllErr = err != nil
+				for _, m := range msgs {
+					if len(m) == 0 {
+						so.All = append(so.All, nil)
+						continue
+					}
+					o := classifyWS(m, nil)
+					so.All = append(so.All, &o)
+				}
+			}()
+			select {
+			case <-fin:
+			case <-time.After(roundDeadline):
+				emit(stepOut{Raw: "sends did not end"})
+				return false, true
+			}
+			emit(so)
+			continue
+		}
 		if len(st.Reuse) > 0 {
 			out := make([]obsReply, len(st.Reuse))
 			fin := make(chan struct{})
@@ -727,9 +767,27 @@ func parCase(in *input, lines []json.RawMessage, died string) lib.Case {
 	}
 	ss := make([]string, len(steps))
 	os := make([]string, len(steps))
-	scripted, free, sends, quitrace, reuse := false, false, false, false, false
+	scripted, free, sends, quitrace, reuse, toall := false, false, false, false, false, false
 	for i, st := range steps {
 		o := obs[i]
+		if st.All {
+			toall = true
+			slots := make([]string, len(o.All))
+			for j, x := range o.All {
+				if x == nil {
+					slots[j] = "None"
+				} else {
+					slots[j] = "(Some " + coqReply(*x) + ")"
+				}
+			}
+			ss[i] = "(StAll " + coqPMsg(&st.Msg) + ")"
+			if o.IsAll {
+				os[i] = fmt.Sprintf("(OAll %s %s)", lib.List(slots), lib.Bool(o.AllErr))
+			} else {
+				os[i] = `(OSend [RErr ETransport ""])` // the step did not end
+			}
+			continue
+		}
 		if len(st.Reuse) > 0 {
 			reuse = true
 			cs := make([]string, len(st.Reuse))
@@ -795,6 +853,9 @@ func parCase(in *input, lines []json.RawMessage, died string) lib.Case {
 	class := "par"
 	if quitrace {
 		class += "-quitrace"
+	}
+	if toall {
+		class += "-toall"
 	}
 	if reuse {
 		class += "-reuse"
@@ -946,6 +1007,10 @@ func parScenario(rng *rand.Rand, n int) input {
 	steps := 3 + rng.Intn(4)
 	for s := 0; s < steps; s++ {
 		msg := wsReq{S: sp(fmt.Sprintf("q%d-%d", n, s)), I: ip(int64(rng.Intn(100))), B: bp(rng.Intn(2) == 0), D: sp(dPool[rng.Intn(len(dPool))])}
+		if rng.Intn(6) == 0 {
+			p.Steps = append(p.Steps, parStep{All: true, Msg: msg})
+			continue
+		}
 		if rng.Intn(5) == 0 {
 			// calls one after the other that reuse one reply variable; some go to the
 			// acknowledge-only endpoint, whose reply is encoded to zero bytes
@@ -1036,4 +1101,191 @@ func streamWitness() input {
 	return input{Kind: "witness", Clients: []client{{Keep: true, Svc: true}, {Keep: false, Svc: true}},
 		Rounds:  [][]req{{ws(0, "before")}, {ws(0, "during"), ws(1, "during")}, {ws(0, "after"), ws(1, "after")}},
 		Streams: [][]streamConv{{{Client: 1, Msgs: []wsReq{ok("s1", 2), ok("s2", 0)}}}, {{Client: 1, Msgs: []wsReq{ok("panic-first", 0)}}, {Client: 0, Msgs: []wsReq{ok("s3", 1), ok("panic-later", 1), ok("never", 0)}}}, {{Client: 0, Msgs: []wsReq{ok("s4", 4)}}}}}
+}
+
+// SendToAll over three servers, the first of which fails: slot 0 must be empty, slots 1
+// and 2 the replies of servers 1 and 2
+func sendToAllWitness() input {
+	msg := wsReq{S: sp("all"), I: ip(3), B: bp(true), D: sp("0102")}
+	return input{Kind: "witness", Par: &parInput{Nodes: []string{"fail", "ok", "ok"}, Keep: true, Steps: []parStep{
+		{All: true, Msg: msg},
+		{All: true, Msg: msg},
+	}}}
+}
+
+// ---------------------------------------------------------------- a handler that keeps its argument
+
+// MsgPut / MsgGet: a store. Put keeps the byte slice of its argument (no copy), Get returns it.
+type MsgPut struct {
+	S string
+	D []byte
+}
+type MsgGet struct{ S string }
+
+func (s *svc) wsPut(m *MsgPut) (*Reply, error) {
+	s.mu.Lock()
+	s.store[m.S] = m.D
+	s.mu.Unlock()
+	return &Reply{T: 7, S: m.S}, nil
+}
+
+func (s *svc) wsGet(m *MsgGet) (*Reply, error) {
+	s.mu.Lock()
+	d := s.store[m.S]
+	s.mu.Unlock()
+	return &Reply{T: 8, S: m.S, D: d}, nil
+}
+
+type storeOp struct {
+	Client int    `json:"c"`
+	Put    bool   `json:"put"`
+	Key    string `json:"key"`
+	Data   string `json:"data,omitempty"` // hex
+}
+
+type storeInput struct {
+	Keeps []bool    `json:"keeps"`
+	Ops   []storeOp `json:"ops"`
+}
+
+func runStore(in *input, emit func(interface{}), started *bool) (discard bool, hung bool) {
+	registerOnce.Do(func() {
+		log.SetDebugVisible(0)
+		log.OutputToBuf()
+		if _, err := onet.RegisterNewService(svcName, newSvc); err != nil {
+			panic(err)
+		}
+	})
+	log.OutputToBuf()
+	defer func() { log.GetStdOut(); log.GetStdErr() }()
+	l := onet.NewTCPTest(suite)
+	l.Check = onet.CheckNone
+	srv := l.GenServers(1)[0]
+	defer l.CloseAll()
+	cls := make([]*onet.Client, len(in.Store.Keeps))
+	for i, k := range in.Store.Keeps {
+		if k {
+			cls[i] = onet.NewClientKeep(suite, svcName)
+		} else {
+			cls[i] = onet.NewClient(suite, svcName)
+		}
+		cls[i].ReadTimeout = 45 * time.Second
+	}
+	defer func() {
+		for _, c := range cls {
+			c.Close()
+		}
+	}()
+	*started = true
+	for _, op := range in.Store.Ops {
+		var o obsReply
+		fin := make(chan struct{})
+		go func() {
+			defer close(fin)
+			defer func() {
+				if r := recover(); r != nil {
+					o = obsReply{Class: "EOther", Raw: "client panic: " + short(fmt.Sprint(r))}
+				}
+			}()
+			if op.Client < 0 || op.Client >= len(cls) {
+				o = obsReply{Class: "EOther", Raw: "no such client"}
+				return
+			}
+			var buf []byte
+			var err error
+			path := "MsgGet"
+			if op.Put {
+				d, _ := hex.DecodeString(op.Data)
+				path = "MsgPut"
+				buf, err = protobuf.Encode(&MsgPut{op.Key, d})
+			} else {
+				buf, err = protobuf.Encode(&MsgGet{op.Key})
+			}
+			if err != nil {
+				panic(err)
+			}
+			rcv, err := cls[op.Client].Send(srv.ServerIdentity, path, buf)
+			o = classifyWS(rcv, err)
+		}()
+		select {
+		case <-fin:
+		case <-time.After(roundDeadline):
+			emit(obsReply{Class: "ETransport", Raw: "no reply and no error within " + roundDeadline.String()})
+			return false, true
+		}
+		emit(o)
+	}
+	return false, false
+}
+
+func storeCase(in *input, lines []json.RawMessage, died string) lib.Case {
+	st := in.Store
+	obs := make([]obsReply, len(lines))
+	for i, l := range lines {
+		if err := json.Unmarshal(l, &obs[i]); err != nil {
+			panic(err)
+		}
+	}
+	if died != "" && died != "hung" && len(obs) < len(st.Ops) {
+		obs = append(obs, obsReply{Class: "ETransport", Raw: died})
+	}
+	ops := st.Ops[:len(obs)]
+	ks := make([]string, len(st.Keeps))
+	for i, k := range st.Keeps {
+		ks[i] = lib.Bool(k)
+	}
+	os := make([]string, len(ops))
+	rs := make([]string, len(ops))
+	kept := false
+	for i, op := range ops {
+		if op.Put {
+			os[i] = fmt.Sprintf("(SOp %d (SPut %s %s))", op.Client, coqStr(op.Key), coqStr(op.Data))
+		} else {
+			os[i] = fmt.Sprintf("(SOp %d (SGet %s))", op.Client, coqStr(op.Key))
+		}
+		rs[i] = coqReply(obs[i])
+		if op.Client < len(st.Keeps) && st.Keeps[op.Client] {
+			kept = true
+		}
+	}
+	class := "store-single"
+	if kept {
+		class = "store-kept"
+	}
+	class += endSuffix(died)
+	coq := fmt.Sprintf("CStore %s\n    %s\n    %s", lib.List(ks), lib.List(os), lib.List(rs))
+	return lib.Case{Coq: coq, Class: class, Obs: obs, Nontrivial: len(ops) > 1}
+}
+
+func storeData(rng *rand.Rand) string {
+	n := 4 + rng.Intn(40)
+	b := byte(0x41 + rng.Intn(26))
+	return hex.EncodeToString([]byte(strings.Repeat(string([]byte{b}), n)))
+}
+
+func storeScenario(rng *rand.Rand, n int) input {
+	nc := 1 + rng.Intn(3)
+	st := &storeInput{}
+	for i := 0; i < nc; i++ {
+		st.Keeps = append(st.Keeps, rng.Intn(3) > 0)
+	}
+	keys := []string{"k1", "k2", "k3", "k4"}
+	for k, m := 0, 6+rng.Intn(10); k < m; k++ {
+		op := storeOp{Client: rng.Intn(nc), Key: keys[rng.Intn(len(keys))]}
+		if k < 2 || rng.Intn(2) == 0 {
+			op.Put = true
+			op.Data = storeData(rng)
+		}
+		st.Ops = append(st.Ops, op)
+	}
+	return input{Kind: "store", Store: st}
+}
+
+// 32 x 'A' under k1 and 32 x 'B' under k2 over one kept connection, then both are read back
+func storeWitness() input {
+	a := hex.EncodeToString([]byte(strings.Repeat("A", 32)))
+	b := hex.EncodeToString([]byte(strings.Repeat("B", 32)))
+	return input{Kind: "witness", Store: &storeInput{Keeps: []bool{true, false}, Ops: []storeOp{
+		{0, true, "k1", a}, {0, true, "k2", b}, {0, false, "k1", ""}, {0, false, "k2", ""}, {1, false, "k1", ""}, {0, false, "nokey", ""},
+	}}}
 }
